@@ -66,6 +66,9 @@ Definition run_parameters (m : model) : list string :=
 Definition supplied (k : string) (p : params) : bool :=
   match assoc k p with Some _ => true | None => false end.
 
+Definition solver_eqb (a b : solver) : bool :=
+  match a, b with Euler, Euler | RK4, RK4 => true | _, _ => false end.
+
 Section Api.
 Variable O : NumOps.
 Notation F := (F O).
@@ -138,7 +141,12 @@ Definition get_runner (m : model) (p : params) (dyn : option (list string)) (s :
 Definition step (a : api) (c : call) : api * option (result (run_result O)) :=
   match c with
   | CRun p s rebuild =>
-      let cached := if rebuild then None else a_runner a in
+      (* the cached runner is reused only for the solver it was built with *)
+      let cached := if rebuild then None else
+                    match a_runner a with
+                    | Some r => if solver_eqb (r_solver r) s then Some r else None
+                    | None => None
+                    end in
       match cached with
       | Some r =>
           let out := runner_run r p in
